@@ -92,7 +92,7 @@ type hdrCase struct {
 	Broken string `json:"broken_rules"`
 }
 
-var gridLengths = []int64{0, 1, 124, 125, 126, 127, 65535, 65536, 1 << 31, 1<<63 - 1}
+var gridLengths = []int64{0, 1, 124, 125, 126, 127, 128, 65535, 65536, 1 << 31, 1<<31 + 125, 1 << 32, 1<<32 + 5, 1<<32 + 125, 1<<32 + 126, 1 << 40, 1 << 62, 1<<62 + 125, 1<<63 - 1}
 
 // The whole grid: Fin x Rsv x OpCode x Masked x key field x length class x
 // side x extended x fragmented.
@@ -164,7 +164,7 @@ func TestHeaderGrid(t *testing.T) {
 		}
 	}
 	hx.EvalN(n)
-	hx.Part("CheckHeader: fin x rsv(8) x opcode(16) x masked x key field(2) x length{0,1,124,125,126,127,65535,65536,2^31,2^63-1} x side{none,server,client,server+client} x extended x fragmented x undefined state bits{0,0x10,0xF0}", int64(n), true)
+	hx.Part("CheckHeader: fin x rsv(8) x opcode(16) x masked x key field(2) x length{0,1,124..128,65535,65536,2^31,2^31+125,2^32,2^32+5,2^32+125,2^32+126,2^40,2^62,2^62+125,2^63-1} x side{none,server,client,server+client} x extended x fragmented x undefined state bits{0,0x10,0xF0}", int64(n), true)
 }
 
 // ---------------------------------------------------------------------------
